@@ -554,7 +554,7 @@ def run(scn: Dict[str, Any]) -> List[Dict[str, Any]]:
                     ack_time=ACK[cfg.get("ack", "default")],
                 )
                 env.rec("ret")
-        else:
+        elif cfg.get("via") != "cli":
             receiver = ObservedReceiver(
                 broker,
                 executor=InlineExecutor(),
@@ -571,8 +571,24 @@ def run(scn: Dict[str, Any]) -> List[Dict[str, Any]]:
                 await receiver.listen(finish)
                 env.rec("ret")
 
+        def request_stop() -> None:
+            finish.set()
+
+        if cfg.get("via") == "cli":
+            return _run_cli(scn, cfg, loop, env, broker, ObservedReceiver)
         task = loop.create_task(main())
         loop.settle()
+        return _play(scn, loop, env, broker, task, finish, request_stop)
+    finally:
+        try:
+            loop.shutdown()
+        except Exception:  # noqa: BLE001
+            pass
+
+
+def _play(scn: Dict[str, Any], loop: VLoop, env: Env, broker: "ScriptedBroker", task: Any, finish: Any, request_stop: Any) -> List[Dict[str, Any]]:
+    """Interpret the environment steps of a scenario against the running worker."""
+    if True:
         for step in scn["steps"]:
             op = step[0]
             if op in ("arrive", "arrive_"):  # "_" variants: no settle (mid-flight)
@@ -587,7 +603,7 @@ def run(scn: Dict[str, Any]) -> List[Dict[str, Any]]:
             elif op in ("stop", "stop_"):
                 if not finish.is_set():
                     env.rec("stop")
-                    finish.set()
+                    request_stop()
                 else:
                     env.rec("noop", s="stop")
                 if op == "stop":
@@ -680,11 +696,89 @@ def run(scn: Dict[str, Any]) -> List[Dict[str, Any]]:
             env.rec("listen_raised", s=type(task.exception()).__name__)
         env.closed = True
         return env.events
-    finally:
+
+
+class _Unwind(BaseException):
+    """Leaves start_listen() when the scenario is over but the worker has not returned."""
+
+
+def _run_cli(scn: Dict[str, Any], cfg: Dict[str, Any], loop: VLoop, env: Env, broker: "ScriptedBroker", receiver_cls: Any) -> List[Dict[str, Any]]:
+    """The worker as the command line builds it: WorkerArgs.from_cli(argv) -> taskiq.cli.worker.run.start_listen(args).
+
+    Only the process-level services are replaced: the event loop factory (virtual-time loop), signal registration (handlers are
+    captured; 'stop' delivers SIGINT/SIGTERM to the captured handler), the import of broker/receiver by name, the thread pool.
+    """
+    import signal as real_signal
+    import types
+
+    from taskiq.cli.worker import run as cli_run
+    from taskiq.cli.worker.args import WorkerArgs
+
+    argv = ["verifmod:broker", "--receiver", "verifmod:Receiver", "--no-configure-logging",
+            "--max-async-tasks", str(cfg.get("A", 0)), "--max-prefetch", str(cfg.get("P", 0))]
+    if cfg.get("ack", "default") != "default":
+        argv += ["--ack-type", cfg["ack"]]
+    if cfg.get("N"):
+        argv += ["--max-tasks-per-child", str(cfg["N"])]
+    if cfg.get("W", -1) >= 0:
+        argv += ["--wait-tasks-timeout", str(cfg["W"] / 10.0)]
+    if not cfg.get("propagate", True):
+        argv += ["--no-propagate-errors"]
+    args = WorkerArgs.from_cli(argv)
+    handlers: Dict[int, Any] = {}
+    finish = asyncio.Event()      # mirror of the request, for the step interpreter only
+    which = [real_signal.SIGINT, real_signal.SIGTERM]
+
+    def request_stop() -> None:
+        finish.set()
+        sig = which[len(env.events) % 2]
+        handlers[sig](sig, None)
+
+    calls = [0]
+
+    def run_until_complete(coro: Any) -> Any:
+        calls[0] += 1
+        if calls[0] == 1:
+            async def main() -> None:
+                await coro
+                env.rec("ret")
+
+            task = loop.create_task(main())
+            loop.settle()
+            _play(scn, loop, env, broker, task, finish, request_stop)
+            if not task.done():
+                task.cancel()
+                loop.settle()
+                raise _Unwind
+            return task.result()
+        return loop.run_coro(coro)
+
+    fake_signal = types.SimpleNamespace(signal=lambda n, h: handlers.__setitem__(n, h), SIGINT=real_signal.SIGINT,
+                                        SIGTERM=real_signal.SIGTERM, SIGHUP=real_signal.SIGHUP)
+    objects = {"verifmod:broker": broker, "verifmod:Receiver": receiver_cls}
+    saved = {k: getattr(cli_run, k) for k in ("signal", "import_object", "import_tasks", "ThreadPoolExecutor")}
+    saved_new_loop = asyncio.new_event_loop
+    loop.run_until_complete = run_until_complete  # type: ignore[method-assign]
+    try:
+        cli_run.signal = fake_signal  # type: ignore[assignment]
+        cli_run.import_object = lambda path: objects[path]  # type: ignore[assignment]
+        cli_run.import_tasks = lambda *a, **k: None  # type: ignore[assignment]
+        cli_run.ThreadPoolExecutor = lambda max_workers=None: InlineExecutor()  # type: ignore[assignment,misc]
+        asyncio.new_event_loop = lambda: loop  # type: ignore[assignment]
         try:
-            loop.shutdown()
-        except Exception:  # noqa: BLE001
+            cli_run.start_listen(args)
+        except _Unwind:
             pass
+    finally:
+        for k, v in saved.items():
+            setattr(cli_run, k, v)
+        asyncio.new_event_loop = saved_new_loop
+        asyncio.set_event_loop(None)
+    if not env.closed:
+        # start_listen failed before the worker ran
+        env.rec("eot", x=0, y=0)
+        env.closed = True
+    return env.events
 
 
 if __name__ == "__main__":
